@@ -63,7 +63,7 @@ def offdiag_matrix(p, code, dtype):
 
 def adversarial(rng, fam_idx):
     p = int(rng.integers(1, 11))
-    kind = fam_idx % 10
+    kind = fam_idx % 12
     dag = gmat.random_dag_masks(rng, p)
     tiny = lambda: float(rng.choice([-1, 1])) * float(rng.choice([1e-9, 1e-12, 1e-100, 1e-300, 5e-324]))
     if kind == 0:      # DAG, cancelling columns
@@ -109,6 +109,21 @@ def adversarial(rng, fam_idx):
         else:
             a = int(rng.integers(p))
             A[a, a] = tiny()
+    elif kind in (10, 11):   # extreme magnitudes: sums of |weights| overflow / wrap, the non-zero pattern is all that counts
+        if kind == 10:
+            A = np.zeros((p, p), dtype=np.int64)
+            big = [2**62, -(2**62), np.iinfo(np.int64).min, np.iinfo(np.int64).max, 2**61]
+            for i in range(p):
+                for j in G.bits(dag[i]):
+                    A[i, j] = big[int(rng.integers(len(big)))]
+            if p >= 2 and rng.random() < 0.5:      # close a cycle with such weights
+                order = G.topological_order(dag)
+                A[order[-1], order[0]] = 2**62
+        else:
+            A = gmat.weighted(rng, dag, "signed") * float(rng.choice([1e307, 5e307, 1e-307]))
+            if p >= 2 and rng.random() < 0.5:
+                order = G.topological_order(dag)
+                A[order[-1], order[0]] = 1.2e308
     elif kind == 9:    # DAG whose weights are all tiny (must still be a DAG with a valid order), random labelling
         A = gmat.weighted(rng, dag, "tiny")
     else:              # (kind 7) random dense signed matrix (mostly cyclic), sparse variant too
@@ -166,7 +181,7 @@ def judge(family, case, rec):
         A = case["A"]
         key = None
     if family != "constructor":
-        h = int(abs(float(np.abs(A).sum()) * 1000)) % 97 + len(A) if np.isfinite(A).all() else 0
+        h = int(np.count_nonzero(A)) * 5 + int(np.count_nonzero(np.asarray(A) < 0)) * 3 + len(A)
         A = gmat.hostile_array(A, h)     # re-used buffer / Fortran order / strided view / read-only / other dtype
         rec.count("presentation:%d" % (h % 8))
     out = gmat.masks(A)
